@@ -415,6 +415,12 @@ func (s *ProofStructure) VerifyProofStructure(g *gabikeys.PublicKey, p *Proof) b
 			return false
 		}
 
+		// The commitments must be group elements: with C_i = 0 (mod n) every relation in which a
+		// power of C_i occurs is trivially satisfied and any inequality could be "proven".
+		if p.Cs[i].Sign() <= 0 || p.Cs[i].Cmp(g.N) >= 0 || new(big.Int).GCD(nil, nil, p.Cs[i], g.N).Cmp(big.NewInt(1)) != 0 {
+			return false
+		}
+
 		if p.Cs[i].BitLen() > g.N.BitLen() ||
 			uint(p.DResponses[i].BitLen()) > s.ld+g.Params.Lh+g.Params.Lstatzk+1 ||
 			uint(p.VResponses[i].BitLen()) > g.Params.Lm+g.Params.Lh+g.Params.Lstatzk+1 {
